@@ -290,21 +290,17 @@ Proof.
   - rewrite E0. reflexivity.
 Qed.
 
-Lemma qint_spec f n d : fmt_ok f -> 0 < n -> 0 < d ->
-  let e := qexp f n d in let Q := qint f n d in
-  let N := scN n e in let D := scD d e in
-  emin f <= e /\ 0 <= Q <= 2 ^ prec f /\ (2 ^ (prec f - 1) <= Q \/ e = emin f) /\
-  2 * Z.abs (N - Q * D) <= D /\ (2 * Z.abs (N - Q * D) = D -> Z.even Q = true).
+Lemma qexp_spec f n d : fmt_ok f -> 0 < n -> 0 < d ->
+  let p := prec f in
+  emin f <= qexp f n d /\ 0 <= scN n (qexp f n d) / scD d (qexp f n d) < 2 ^ p /\
+               (2 ^ (p - 1) <= scN n (qexp f n d) / scD d (qexp f n d) \/ qexp f n d = emin f).
 Proof.
   intros [Hp He] Hn Hd. cbv zeta.
   set (p := prec f) in *. set (l := Z.log2 n - Z.log2 d).
   assert (HP : 0 < 2 ^ (p - 1)) by (apply pow_pos2; lia).
   assert (HPP : 2 ^ p = 2 * 2 ^ (p - 1)).
   { replace p with (p - 1 + 1) at 1 by lia. rewrite Z.pow_add_r by lia. lia. }
-  (* the exponent and its quotient bounds *)
-  assert (Hq : emin f <= qexp f n d /\ 0 <= scN n (qexp f n d) / scD d (qexp f n d) < 2 ^ p /\
-               (2 ^ (p - 1) <= scN n (qexp f n d) / scD d (qexp f n d) \/ qexp f n d = emin f)).
-  { unfold qexp. fold p. fold l. set (e0 := Z.max (emin f) (l - p)).
+  unfold qexp. fold p. fold l. set (e0 := Z.max (emin f) (l - p)).
     pose proof (scD_pos n d Hd e0) as D0. pose proof (scD_pos n d Hd (e0 + 1)) as D1.
     assert (N0 : 0 <= scN n e0) by (unfold scN; apply Z.mul_nonneg_nonneg; [lia|apply Z.pow_nonneg; lia]).
     assert (N1 : 0 <= scN n (e0 + 1)) by (unfold scN; apply Z.mul_nonneg_nonneg; [lia|apply Z.pow_nonneg; lia]).
@@ -331,7 +327,21 @@ Proof.
     - apply Z.leb_gt in C. split; [unfold e0; lia|]. split; [split; [apply Z.div_pos; lia|exact C]|].
       destruct (Z.eq_dec e0 (emin f)) as [E|N]; [right; exact E|left].
       assert (E0 : e0 = l - p) by (unfold e0 in *; lia).
-      apply Z.div_le_lower_bound; [lia|]. pose proof (sc_lower n d Hn Hd e0 (p - 1) ltac:(lia) ltac:(lia)). lia. }
+      apply Z.div_le_lower_bound; [lia|]. pose proof (sc_lower n d Hn Hd e0 (p - 1) ltac:(lia) ltac:(lia)). lia.
+Qed.
+
+Lemma qint_spec f n d : fmt_ok f -> 0 < n -> 0 < d ->
+  let e := qexp f n d in let Q := qint f n d in
+  let N := scN n e in let D := scD d e in
+  emin f <= e /\ 0 <= Q <= 2 ^ prec f /\ (2 ^ (prec f - 1) <= Q \/ e = emin f) /\
+  2 * Z.abs (N - Q * D) <= D /\ (2 * Z.abs (N - Q * D) = D -> Z.even Q = true).
+Proof.
+  intros [Hp He] Hn Hd. cbv zeta.
+  set (p := prec f) in *. set (l := Z.log2 n - Z.log2 d).
+  assert (HP : 0 < 2 ^ (p - 1)) by (apply pow_pos2; lia).
+  assert (HPP : 2 ^ p = 2 * 2 ^ (p - 1)).
+  { replace p with (p - 1 + 1) at 1 by lia. rewrite Z.pow_add_r by lia. lia. }
+  pose proof (qexp_spec f n d (conj Hp He) Hn Hd) as Hq. cbv zeta in Hq. fold p in Hq.
   destruct Hq as (He0 & [Hq0 Hq1] & Hc). split; [exact He0|].
   unfold qint. set (e := qexp f n d) in *. set (N := scN n e) in *. set (D := scD d e) in *.
   assert (HD : 0 < D) by (apply (scD_pos n), Hd).
